@@ -423,6 +423,7 @@ func c19Template(f string, nargs int, proj string) string {
 func runC19(cases string, res *Result) {
 	eng := &c19Engine{eng: twig.New(), have: map[string]bool{}}
 	c19CheckCaseHypotheses(res)
+	c19LiteralBaseChains(res)
 	readCases(cases, func(c Case) {
 		stream := c.str("stream")
 		f := c.str("f")
@@ -1507,6 +1508,45 @@ func c19ObserveGo(eng *c19Engine, c Case, res *Result) {
 			sort.Strings(want)
 			if !c19SameStrings(got, want) {
 				c19Add(res, Finding{Kind: "oracle", Where: "keys/law", Case: cc, Expected: fmt.Sprint(got), Observed: fmt.Sprint(want), Detail: "the keys a for loop visits differ from the keys filter's"})
+			}
+		}
+	}
+}
+
+// c19LiteralBaseChains: filter chains whose operand is a literal and whose arguments come from the context, one
+// parsed template evaluated again and again with other arguments (and inside a loop): every time the result is
+// that of the same chain over a context variable holding the literal's value.
+func c19LiteralBaseChains(res *Result) {
+	type chain struct{ lit, rest string }
+	chains := []chain{
+		{"'abcdef'", "|slice(s, l)|upper"}, {"'abcdef'", "|slice(s)|upper|lower"}, {"[1, 2, 3, 4, 5]", "|slice(s, l)|join(',')"}, {"'a,b,c'", "|split(sep)|join('+')"},
+		{"''", "|default(d)|upper"}, {"[1, 2]", "|merge(xs)|length"}, {"2.567", "|round(p)|abs"}, {"'x'", "|default(d)|replace(d, 'R')|upper"}, {"'  pad  '", "|trim|slice(s)|capitalize"},
+		{"[3, 1, 2]", "|sort|slice(s, l)|join"}, {"'abc'", "|upper|slice(s, l)"}, {"1234.5", "|number_format(p)|length"},
+	}
+	ctxs := []map[string]interface{}{}
+	for s := -3; s <= 4; s++ {
+		for l := -2; l <= 3; l++ {
+			ctxs = append(ctxs, map[string]interface{}{"s": s, "l": l, "sep": []string{",", "b", ""}[(s+3)%3], "d": []string{"D", "", "x"}[(l+2)%3], "xs": make([]interface{}, (s+3)%4), "p": (s + 3) % 4})
+		}
+	}
+	for _, ch := range chains {
+		eng := twig.New()
+		a, b, c := "{{ "+ch.lit+ch.rest+" }}", "{% set v = "+ch.lit+" %}{{ v"+ch.rest+" }}", "{% for i in [1, 2] %}{{ "+ch.lit+ch.rest+" }};{% endfor %}"
+		if eng.RegisterString("a", a) != nil || eng.RegisterString("b", b) != nil || eng.RegisterString("c", c) != nil {
+			continue
+		}
+		res.Hist["stream:literal-base-chains"]++
+		res.count("literal-base-chains/"+ch.lit+ch.rest, true)
+		for _, ctx := range ctxs {
+			res.Evaluations += 3
+			oa, ea := eng.Render("a", ctx)
+			ob, eb := eng.Render("b", ctx)
+			oc, ec := eng.Render("c", ctx)
+			if (ea == nil) != (eb == nil) || (ea == nil && oa != ob) || (ea == nil) != (ec == nil) || (ea == nil && oc != oa+";"+oa+";") {
+				res.add(Finding{Kind: "oracle", Where: "literal-base-chains", Case: Case{"stream": "literal-base-chains", "tpl": a, "ctx": fmt.Sprint(ctx)},
+					Expected: fmt.Sprintf("%q (err=%v), the chain over a variable that holds the literal", ob, eb), Observed: fmt.Sprintf("%q (err=%v); in a loop %q (err=%v)", oa, ea, oc, ec),
+					Detail: "one parsed template evaluated with many argument values: the chain over the literal stopped following its arguments"})
+				break
 			}
 		}
 	}
